@@ -214,14 +214,14 @@ func tieOps(out *vl.Out, key, idlDir, main, unitDir, backendName string, opts []
 			emit("C "+h(c.Name), "ok")
 		}
 		if rejected {
-			emit("QO", "reject:reserve")
+			emit("QO "+key+" "+h(tf.goRel), "reject:reserve")
 			continue
 		}
 		// ---- implementation observation
 		ob, err := observeGo(unitDir, tf.goRel, backendName == "fastgo")
 		if err != nil {
 			// the main file is missing or does not parse: the oracle reports it, nothing to compare
-			emit("QO", "ok")
+			emit("QO "+key+" "+h(tf.goRel), "ok")
 			out.Count("tie.skip.unparsable-output")
 			continue
 		}
@@ -255,11 +255,12 @@ func tieOps(out *vl.Out, key, idlDir, main, unitDir, backendName string, opts []
 		}
 		sort.Strings(qs)
 		emit("Q "+strings.Join(qs, " "), "ok")
-		emit("QO", "ok")
-		emit("QG", "globals "+strings.Join(ob.globals, ","))
-		emit("QT", "types "+strings.Join(ob.types, ";"))
-		emit("QP", "params "+strings.Join(ob.params, ";"))
-		emit("QI", "imports "+strings.Join(ob.importList(), ","))
+		who := " " + key + " " + h(tf.goRel)
+		emit("QO"+who, "ok")
+		emit("QG"+who, "globals "+strings.Join(ob.globals, ","))
+		emit("QT"+who, "types "+strings.Join(ob.types, ";"))
+		emit("QP"+who, "params "+strings.Join(ob.params, ";"))
+		emit("QI"+who, "imports "+strings.Join(ob.importList(), ","))
 	}
 	for _, l := range lines {
 		out.Case(l.op, l.impl, l.op[0] == 'Q' && len(l.op) > 1)
